@@ -144,11 +144,14 @@ pub struct StreamSpec {
     pub srcs: Vec<String>,
     /// optional extra `.where(v > c)` directly after the source (used by C23 edits)
     pub pre_where: Option<i64>,
+    /// optional extra `.where(v > c)` as the LAST operation, after the emit (used by C23 edits;
+    /// only rendered for the templates that end in an emit on a field `v`)
+    pub post_where: Option<i64>,
 }
 
 impl StreamSpec {
     pub fn new(name: &str, tpl: Tpl, srcs: &[&str]) -> Self {
-        StreamSpec { name: name.into(), tpl, srcs: srcs.iter().map(|s| s.to_string()).collect(), pre_where: None }
+        StreamSpec { name: name.into(), tpl, srcs: srcs.iter().map(|s| s.to_string()).collect(), pre_where: None, post_where: None }
     }
     /// every event type / stream name this stream consumes according to its declaration
     pub fn consumes(&self) -> Vec<String> {
@@ -164,6 +167,13 @@ impl StreamSpec {
         c
     }
     pub fn text(&self) -> String {
+        let body = self.text_without_tail();
+        match (self.post_where, self.tpl) {
+            (Some(c), Tpl::FilterEmit(_) | Tpl::CountAgg(_) | Tpl::Seq(_) | Tpl::Join) => format!("{body}    .where(v > {c})\n"),
+            _ => body,
+        }
+    }
+    fn text_without_tail(&self) -> String {
         let pre = self.pre_where.map(|c| format!("    .where(v > {c})\n")).unwrap_or_default();
         let n = &self.name;
         match self.tpl {
@@ -182,7 +192,7 @@ impl StreamSpec {
         }
     }
     pub fn to_json(&self) -> J {
-        json!({"name": self.name, "tpl": self.tpl.name(), "srcs": self.srcs, "pre_where": self.pre_where})
+        json!({"name": self.name, "tpl": self.tpl.name(), "srcs": self.srcs, "pre_where": self.pre_where, "post_where": self.post_where})
     }
     pub fn from_json(v: &J) -> Option<StreamSpec> {
         Some(StreamSpec {
@@ -190,11 +200,13 @@ impl StreamSpec {
             tpl: Tpl::from_name(v["tpl"].as_str()?)?,
             srcs: v["srcs"].as_array()?.iter().filter_map(|s| s.as_str().map(String::from)).collect(),
             pre_where: v["pre_where"].as_i64(),
+            post_where: v["post_where"].as_i64(),
         })
     }
     pub fn label(&self) -> String {
         let w = self.pre_where.map(|c| format!("+where{c}")).unwrap_or_default();
-        format!("{}={}({}){w}", self.name, self.tpl.name(), self.srcs.join(","))
+        let t = self.post_where.map(|c| format!("+tailwhere{c}")).unwrap_or_default();
+        format!("{}={}({}){w}{t}", self.name, self.tpl.name(), self.srcs.join(","))
     }
 }
 
